@@ -44,6 +44,8 @@ def bases():
         # that bites is once the first and once the last)
         ('ss2a', {'groups': {'1': g(VCPU=1), '2': g(SRIOV_NET_VF=2), '3': g(DISK_GB=3)},
                   'group_policy': 'none', 'same_subtree': [['1', '2'], ['2', '3']]}),
+        # a string suffix with every character class the 1.33 syntax allows
+        ('mdash', {'groups': {'': g(VCPU=1), '_net-0': g(SRIOV_NET_VF=2)}}),
         ('ss2b', {'groups': {'1': g(VCPU=1), '2': g(SRIOV_NET_VF=2), '3': g(DISK_GB=3)},
                   'group_policy': 'none', 'same_subtree': [['2', '3'], ['1', '2']]}),
     ]
